@@ -32,6 +32,9 @@ def make_reference(r):
     ref.medline_id = r.get("medline", "")
     ref.comment = r.get("comment", "")
     ref.consrtm = r.get("consrtm", "")
+    if r.get("loc"):
+        from Bio.SeqFeature import FeatureLocation
+        ref.location = [FeatureLocation(int(r["loc"][0]), int(r["loc"][1]))]
     return ref
 
 
